@@ -18,7 +18,9 @@ package keeper
 //@ smt (define-fun txs_rej ((t Slc_Int) (base Int) (q Slc_Int) (n Int) (nonce Int)) Bool (forall ((k Int)) (! (=> (and (<= (+ (off_Slc_Int t) base) k) (< k (+ (off_Slc_Int t) base n)))
 //@       (= (select (arr_Slc_Int t) k) (ethtx_reject (select (arr_Slc_Int q) (+ (off_Slc_Int q) (- k (off_Slc_Int t) base))) (+ nonce (- k (off_Slc_Int t) base))))) :pattern ((select (arr_Slc_Int t) k)))))
 //@ smt (define-fun dq_prefix_eq ((a Slc_Opt_T_bitcoin_types_DepositExecReceipt) (b Slc_Opt_T_bitcoin_types_DepositExecReceipt) (n Int)) Bool (forall ((i Int)) (! (=> (and (<= 0 i) (< i n)) (= (select (arr_Slc_Opt_T_bitcoin_types_DepositExecReceipt a) (+ (off_Slc_Opt_T_bitcoin_types_DepositExecReceipt a) i)) (select (arr_Slc_Opt_T_bitcoin_types_DepositExecReceipt b) (+ (off_Slc_Opt_T_bitcoin_types_DepositExecReceipt b) i)))) :pattern ((select (arr_Slc_Opt_T_bitcoin_types_DepositExecReceipt b) (+ (off_Slc_Opt_T_bitcoin_types_DepositExecReceipt b) i))))))
-//@ smt (define-fun dkey ((ds Slc_Opt_T_bitcoin_types_Deposit) (i Int)) Pair_Bytes_Int (mk_Pair_Bytes_Int (dsha256 (T_bitcoin_types_Deposit.NoWitnessTx (val_Opt_T_bitcoin_types_Deposit (select (arr_Slc_Opt_T_bitcoin_types_Deposit ds) (+ (off_Slc_Opt_T_bitcoin_types_Deposit ds) i))))) (T_bitcoin_types_Deposit.OutputIndex (val_Opt_T_bitcoin_types_Deposit (select (arr_Slc_Opt_T_bitcoin_types_Deposit ds) (+ (off_Slc_Opt_T_bitcoin_types_Deposit ds) i))))))
+// dkey is declared with a definitional axiom (trigger: the application itself) instead of a macro: the solvers then match
+// quantified key facts on dkey(ds, j) directly, which keeps the distinct-keys invariant well under a second.
+//@ smt (declare-fun dkey (Slc_Opt_T_bitcoin_types_Deposit Int) Pair_Bytes_Int) (assert (forall ((ds Slc_Opt_T_bitcoin_types_Deposit) (i Int)) (! (= (dkey ds i) (mk_Pair_Bytes_Int (dsha256 (T_bitcoin_types_Deposit.NoWitnessTx (val_Opt_T_bitcoin_types_Deposit (select (arr_Slc_Opt_T_bitcoin_types_Deposit ds) (+ (off_Slc_Opt_T_bitcoin_types_Deposit ds) i))))) (T_bitcoin_types_Deposit.OutputIndex (val_Opt_T_bitcoin_types_Deposit (select (arr_Slc_Opt_T_bitcoin_types_Deposit ds) (+ (off_Slc_Opt_T_bitcoin_types_Deposit ds) i)))))) :pattern ((dkey ds i)))))
 //@ smt (define-fun keys_distinct ((ds Slc_Opt_T_bitcoin_types_Deposit) (n Int)) Bool (forall ((i Int) (j Int)) (! (=> (and (<= 0 j) (< j i) (< i n)) (not (= (dkey ds i) (dkey ds j)))) :pattern ((dkey ds i) (dkey ds j)))))
 //@ smt (define-fun dom_mono ((a (Array Pair_Bytes_Int Bool)) (b (Array Pair_Bytes_Int Bool))) Bool (forall ((k Pair_Bytes_Int)) (! (=> (select a k) (select b k)) :pattern ((select b k)))))
 
